@@ -4,6 +4,7 @@ package x25519
 // scheduler over instrumented accesses to package-level variables), plus the free-running -race pass.
 
 import (
+	"runtime/debug"
 	"io"
 	"runtime"
 	"bytes"
@@ -500,6 +501,16 @@ func init() {
 		all, valid, e := ed25519.VerifyBatch(rt.NewRng(1, "c15"), f.batchPub[:4], msgs, f.batchSig[:4], &ed25519.Options{Hash: crypto.SHA512})
 		return dig(all, valid, e)
 	})
+	soBatch := func(zip bool) string {
+		f := fixtures()
+		pubs := append([]ed25519.PublicKey{ed25519.PublicKey(f.soKey)}, f.batchPub[:3]...)
+		msgs := append([][]byte{f.msg}, f.batchMsg[:3]...)
+		sigs := append([][]byte{f.soSig}, f.batchSig[:3]...)
+		all, valid, e := ed25519.VerifyBatch(rt.NewRng(1, "c15"), pubs, msgs, sigs, &ed25519.Options{ZIP215Verify: zip})
+		return dig(all, valid, e)
+	}
+	mk("Batch4SmallOrderKeyZip215", func() string { return soBatch(true) })
+	mk("Batch4SmallOrderKeyDefault", func() string { return soBatch(false) })
 	mk("Batch64BadLast", func() string { return batchCall(64, 63) })
 	mk("Batch64Bad60", func() string { return batchCall(64, 60) })
 	mk("Batch8ThirdCtx", func() string {
@@ -577,6 +588,7 @@ type c15req struct {
 	Stride    map[string]int `json:"stride,omitempty"`
 	Tracking  bool           `json:"tracking,omitempty"`
 	Reps      int            `json:"reps,omitempty"`
+	NoGC      bool           `json:"nogc,omitempty"`       // mode "seq": garbage collector off (pools keep their objects)
 	Parked    int            `json:"parked,omitempty"`     // mode "parked": number of calls in flight
 	Gomaxprocs int           `json:"gomaxprocs,omitempty"` // mode "parked"
 }
@@ -612,6 +624,10 @@ func c15Child(payload []byte) interface{} {
 	switch req.Mode {
 	case "seq":
 		holdErrors = true
+		if req.NoGC {
+			debug.SetGCPercent(-1)
+			runtime.GOMAXPROCS(1)
+		}
 		var res []string
 		for _, o := range req.Ops {
 			res = append(res, c15ops[o].run())
@@ -929,6 +945,32 @@ func jobC15hist(c *rt.Ctx) {
 		}
 	}
 	c.Require("history/long-run")
+	// sandwiches: an operation, then d-1 other calls, then a related operation that must not see what the
+	// first one left d calls earlier (d around 256; thorough: around 65536) - a ZIP-215 batch holding a
+	// small-order key, fillers, the same entries in default mode (and the other way round); a failing call,
+	// fillers, a succeeding one. Run with the garbage collector on and off (pooled objects survive only
+	// without collections) - the sandwich histories are marked by a leading -1 / -2 in the sequence.
+	sand := [][2]string{{"Batch4SmallOrderKeyZip215", "Batch4SmallOrderKeyDefault"}, {"Batch4SmallOrderKeyDefault", "Batch4SmallOrderKeyZip215"}, {"Batch5FailingEntropy", "Batch4OneBad"}, {"VerifyZip215SmallOrder", "Batch4SmallOrderKeyDefault"}}
+	dists := []int{255, 256, 257}
+	if c.Thorough() {
+		dists = append(dists, 65535, 65536, 65537)
+	}
+	for _, sw := range sand {
+		for _, d := range dists {
+			for _, filler := range []string{"Batch4Good", "VerifyGood"} {
+				for _, nogc := range []int{-1, -2} {
+					if d > 1000 && filler == "VerifyGood" {
+						continue
+					}
+					sq := []int{nogc, opIx(sw[0])}
+					sq = append(sq, rep(opIx(filler), d-1)...)
+					sq = append(sq, opIx(sw[1]))
+					seqs = append(seqs, sq)
+				}
+			}
+		}
+	}
+	c.Require("history/sandwich")
 	// calls in flight: k honest batches parked inside their entropy readers (k = 1..6, 8) at GOMAXPROCS 1,
 	// 16 and 32 while a forged-last-entry batch, a forged-entry-60 batch, a batch under a third context and
 	// a signature run to completion; every result == solo, every parked batch all-valid afterwards
@@ -971,13 +1013,20 @@ func jobC15hist(c *rt.Ctx) {
 		if !c.Take() {
 			continue
 		}
-		resp, stderr, err := c15call(c15req{Mode: "seq", Ops: seq})
+		nogc := false
+		if seq[0] < 0 {
+			nogc = seq[0] == -2
+			seq = seq[1:]
+		}
+		resp, stderr, err := c15call(c15req{Mode: "seq", Ops: seq, NoGC: nogc})
 		if err != nil {
 			c.Violation("C15 history child-crash", fmt.Sprintf("history %s: the process failed: %v", opNames(seq), err), map[string]interface{}{"history": opNames(seq), "stderr": tail(stderr)})
 			continue
 		}
 		c.Step(len(seq))
-		if len(seq) >= longN {
+		if len(seq) > 200 && seq[0] != seq[1] {
+			c.Class("history/sandwich")
+		} else if len(seq) >= longN {
 			c.Class("history/long-run")
 		} else if len(seq) == 3 && (strings.Contains(c15ops[seq[0]].name, "Bad") || strings.Contains(c15ops[seq[0]].name, "TooLong")) {
 			c.Class("history/error-pairs")
@@ -990,7 +1039,7 @@ func jobC15hist(c *rt.Ctx) {
 		} else {
 			c.Class(fmt.Sprintf("history/len%d", len(seq)))
 		}
-		c.Distinct(fmt.Sprint(seq), len(seq) > 1)
+		c.Distinct(fmt.Sprint(nogc, seq), len(seq) > 1)
 		states[resp.Snap] = true
 		c.ExtraMax("max_globals_registered", int64(resp.NGlobals))
 		for i, o := range seq {
